@@ -483,6 +483,26 @@ def t_scrollback(task, ctx: Ctx):
                     ctx.violation("no-raise", f"C15/no-raise/scrolled-view/{exc_site(e)}", case, repr(e))
                 if off:
                     ctx.distinct("nontrivial", ("sb", w, h, k, off))
+        # signed amounts: whatever direction a negative count means, the view stays a height-row window onto scrollback + screen
+        for start in sorted({0, min(1, screen_top), screen_top}):
+            for up in (True, False):
+                for amount in sorted({-1, -h, -(screen_top + 2)}):
+                    ctx.count("evaluations")
+                    case = dict(case0, start=start, up=up, lines=amount)
+                    try:
+                        tc.scroll_buffer(reset=True)
+                        if start:
+                            tc.scroll_buffer(up=True, lines=start)
+                        tc.scroll_buffer(up=up, lines=amount)
+                        view = [b"".join(c[2] for c in row).decode() for row in tc.content()]
+                    except Exception as e:
+                        ctx.violation("no-raise", f"C15/no-raise/scrolled-view/{exc_site(e)}", case, repr(e))
+                        continue
+                    lines_all = full + [" " * w] * h
+                    windows = [lines_all[o : o + h] for o in range(0, screen_top + 1)]
+                    if view not in windows:
+                        ctx.violation("scrollback-order", "C15/scrollback-order/view/negative-amount", case, f"view {view} is not a {h}-row window onto {lines_all[: screen_top + h]}")
+        tc.scroll_buffer(reset=True)
         # resizes while the view is scrolled back, and the cursor across a resize
         for up_lines in range(0, screen_top + 2):
             for (nw, nh) in ((w, h + 1), (w, h + 3), (w + 2, h), (max(1, w - 1), h), (w, max(1, h - 1)), (w + 1, h + 2)):
